@@ -5,6 +5,7 @@ CONSTANTS
   PlanSet <- Plans_all
   LateAfter = FALSE
   StepSend = FALSE
+  LeakPop = FALSE
 INVARIANT TypeOK
 INVARIANT Inv_ServerAlive
 INVARIANT Inv_Others
